@@ -12,7 +12,9 @@ META = dict(
          "exactly equal to it, and the real WireLog (buffify) must hold exactly the accepted chunks. The queues are also "
          "handed over as bytearray objects (total <= 3 / 6) and with one bytearray object queued twice in a row; delivery "
          "must still be exact and the caller's objects unchanged afterwards; and with bufsize / .bs = 2, smaller than a "
-         "message and than the backlog (total <= 4 / 7). Receive side: a "
+         "message and than the backlog (total <= 4 / 7). Two connections accepted by one real Server / ServerTls are "
+         "driven together (messages queued alternately, every interleaving of their serviceTxes; and: one dies with data "
+         "queued, a new one is accepted) with a per-connection oracle. Receive side: a "
          "stream of 1-6 (9) distinct bytes is delivered with every cut and would-block pattern, through serviceReceives "
          "and serviceReceiveOnce with a large and a 2-byte buffer; rxbs must equal the bytes returned so far after every "
          "call and the whole stream at the end.",
@@ -24,8 +26,10 @@ import itertools
 
 from mc import core, net
 
-QUICK = dict(tx_total=6, tx_stalls=2, rx_total=6, rx_stalls=2, ba_total=3, smallbs_total=4)
-THOROUGH = dict(tx_total=9, tx_stalls=3, rx_total=9, rx_stalls=3, ba_total=6, smallbs_total=7)
+QUICK = dict(tx_total=6, tx_stalls=2, rx_total=6, rx_stalls=2, ba_total=3, smallbs_total=4,
+             pairs=(((2,), (2,)), ((1, 2), (2,))), pair_stalls=1)
+THOROUGH = dict(tx_total=9, tx_stalls=3, rx_total=9, rx_stalls=3, ba_total=6, smallbs_total=7,
+                pairs=(((2,), (2,)), ((1, 2), (2,)), ((3,), (1, 2)), ((2, 1), (1, 2))), pair_stalls=2)
 ALPHABET = b"abcdefghijklmnopqrstuvwxyz"
 TRANSPORTS = ("Client", "ClientTls", "Incomer", "IncomerTls", "Driver", "DriverDeviceNb")
 PORT = 7000
@@ -350,6 +354,169 @@ def rx_config(kind, nbytes, bs, once, stalls, part, replay=None):
     return st["executions"]
 
 
+def pair_config(kind, lensA, lensB, scenario, stalls, part, replay=None):
+    """Two server-side connections created the way Server / ServerTls creates them (serviceConnects).
+    scenario "both": both live; messages are queued alternately on A and B; then every interleaving of
+      A.serviceTxes() / B.serviceTxes() x every send answer (stall budget shared by both sockets).
+    scenario "dead-then-new": A gets its messages queued, (optionally sends part), its peer goes away and the
+      server notices the cut off with data still queued; then B connects, gets its messages and is serviced
+      through Server.serviceTxesAllIx().
+    Oracle per connection: bytes accepted by ITS socket are a prefix of ITS queue, equal at drain; a freshly
+    accepted connection starts with an empty transmit queue."""
+    S = MODS["serving"]
+    a_msgs = messages(lensA)
+    b_msgs = [mm.upper() for mm in messages(lensB)]
+    a_total, b_total = b"".join(a_msgs), b"".join(b_msgs)
+    free = net.Menu(send_partial=True, send_block=True)
+    tight = net.Menu(send_partial=True, send_min=1)
+    limit = 2 * (len(a_total) + len(b_total)) + stalls + 4
+
+    def run(ch):
+        with core.watchdog(20):
+            return run1(ch)
+
+    def run1(ch):
+        fn = net.FakeNet(chooser=ch)
+        FSM.net = fn
+        ck = net.clock()
+        if kind == "Incomer":
+            srv = S.Server(ha=("", PORT), store=ck)
+        else:
+            srv = S.ServerTls(ha=("", PORT), store=ck, context=net.FakeSslContext(fn))
+        srv.reopen()
+        created = []
+        bad = None
+        order = []
+
+        def connect(port):
+            c = fn.socket()
+            c.bind((net.LOOP, port))
+            c.connect_ex((net.LOOP, PORT))
+            srv.serviceConnects()
+            ix = srv.ixes[(net.LOOP, port)]
+            created.append(ix)
+            raw = ix.cs.raw if hasattr(ix.cs, "raw") else ix.cs
+            return c, ix, raw
+
+        def judge(rawA, rawB):
+            sa, sb = bytes(rawA.sent), bytes(rawB.sent) if rawB is not None else b""
+            if sa != a_total[:len(sa)]:
+                return ("cross-connection", "connection A's socket accepted %r, queued for A: %r (for B: %r)" % (sa, a_total, b_total))
+            if sb != b_total[:len(sb)]:
+                return ("cross-connection", "connection B's socket accepted %r, queued for B: %r (for A: %r)" % (sb, b_total, a_total))
+            return None
+
+        try:
+            ca, ixA, rawA = connect(40001)
+            rawB = None
+            if ixA.txes:
+                bad = ("fresh-queue-not-empty", "a newly accepted connection starts with %r in .txes" % (list(ixA.txes),))
+                ixA.txes.clear()
+            budget = [stalls]
+
+            def service(fnc, socks):
+                mark = len(fn.log)
+                fnc()
+                for name, op, ans in fn.log[mark:]:
+                    if op == "send" and stalled(ans):
+                        budget[0] -= 1
+                if budget[0] <= 0:
+                    for sk in socks:
+                        sk.menu = tight
+
+            if scenario == "both":
+                cb, ixB, rawB = connect(40002)
+                if ixB.txes and bad is None:
+                    bad = ("fresh-queue-not-empty", "a newly accepted connection starts with %r in .txes" % (list(ixB.txes),))
+                    ixB.txes.clear()
+                rawA.menu = rawB.menu = free if stalls else tight
+                for i in range(max(len(a_msgs), len(b_msgs))):       # interleaved tx()
+                    if i < len(a_msgs):
+                        ixA.tx(a_msgs[i])
+                    if i < len(b_msgs):
+                        ixB.tx(b_msgs[i])
+                calls = 0
+                while bad is None and (len(rawA.sent) < len(a_total) or len(rawB.sent) < len(b_total)) and calls < limit:
+                    pending = [i for i, (rw, tot) in enumerate(((rawA, a_total), (rawB, b_total))) if len(rw.sent) < len(tot)]
+                    who = pending[0] if len(pending) == 1 else ch.choose(2, "who", calls % 2, 0)
+                    order.append("AB"[who])
+                    service((ixA, ixB)[who].serviceTxes, (rawA, rawB))
+                    calls += 1
+                    bad = judge(rawA, rawB)
+                if bad is None and (bytes(rawA.sent) != a_total or bytes(rawB.sent) != b_total or ixA.txes or ixB.txes):
+                    bad = ("stuck", "after %d service calls A accepted %r of %r, B accepted %r of %r"
+                           % (calls, bytes(rawA.sent), a_total, bytes(rawB.sent), b_total))
+            else:
+                rawA.menu = free if stalls else tight
+                for mm in a_msgs:
+                    ixA.tx(mm)
+                if ch.choose(2, "A serviced once before it dies", 0, 0):
+                    order.append("A")
+                    service(ixA.serviceTxes, (rawA,))
+                ca.close()                                   # the peer goes away
+                srv.serviceReceivesAllIx()                   # ... and the server notices: cutoff with data queued
+                order.append("A-cutoff")
+                if not ixA.cutoff:
+                    raise core.BrokenCheck("peer close not noticed")
+                sentA = bytes(rawA.sent)
+                cb, ixB, rawB = connect(40002)
+                if ixB.txes and bad is None:
+                    bad = ("fresh-queue-not-empty", "a connection accepted after another one died with data queued "
+                                                    "starts with %r in .txes" % (list(ixB.txes),))
+                    ixB.txes.clear()
+                rawB.menu = free if budget[0] > 0 else tight
+                for mm in b_msgs:
+                    ixB.tx(mm)
+                calls = 0
+                while bad is None and len(rawB.sent) < len(b_total) and calls < limit:
+                    order.append("all")
+                    service(srv.serviceTxesAllIx, (rawB,))
+                    calls += 1
+                    bad = judge(rawA, rawB)
+                    if bad is None and bytes(rawA.sent) != sentA:
+                        bad = ("sent-after-cutoff", "the cut off connection's socket accepted more bytes: %r -> %r"
+                               % (sentA, bytes(rawA.sent)))
+                if bad is None and (bytes(rawB.sent) != b_total or ixB.txes):
+                    bad = ("stuck", "after %d service calls B accepted %r of %r" % (calls, bytes(rawB.sent), b_total))
+        except core.BrokenCheck:
+            raise
+        except Exception as ex:
+            bad = ("raised", "%s: %s" % (type(ex).__name__, ex))
+        finally:
+            for ix in created:           # nothing may leak into the next execution through a shared object
+                ix.txes.clear()
+        answers = [net.show(a) for n_, op, a in fn.log if op == "send"]
+        LAST["answers"] = answers
+        part.evaluations += 1
+        if ch.deviations():
+            part.nontrivial("pair|%s|%s|%r|%r|%s|%s" % (kind, scenario, lensA, lensB, "".join(order), ",".join(answers)))
+        part.outcome("two connections (%s): %s" % (scenario, "ok" if bad is None else bad[0]))
+        if bad is not None:
+            part.violation("%s.two-connections|%s" % (kind, bad[0]),
+                           "%s A=%s B=%s order=%s answers=%s" % (scenario, "/".join(m.decode() for m in a_msgs),
+                                                                "/".join(m.decode() for m in b_msgs),
+                                                                ",".join(order) or "-", ",".join(answers) or "-"),
+                           "%s, two connections accepted by %s (%s): %s" % (kind, "Server" if kind == "Incomer" else "ServerTls",
+                                                                            scenario, bad[1]),
+                           dict(transport=kind, scenario=scenario, queue_A=[m.decode() for m in a_msgs],
+                                queue_B=[m.decode() for m in b_msgs], service_order=order, send_answers=answers,
+                                choices=ch.choices, case=["pair", kind, list(lensA), list(lensB), scenario, stalls],
+                                how="Server/ServerTls over doubles; two raw clients connect (serviceConnects); tx() the "
+                                    "messages on the two Incomers; service as listed; the doubles answer send() as listed"))
+        return bad
+
+    if replay is not None:
+        run(core.Chooser(replay))
+        return 1
+    try:
+        st = core.dfs(run)
+    except core.Nondeterminism:
+        if part.violations:          # state leaking between executions is itself the violation already recorded
+            return part.evaluations
+        raise
+    return st["executions"]
+
+
 def finish_replay(pid, path, p):
     """Common tail of --replay: report whether the recorded case still violates the property."""
     if p.violations:
@@ -375,6 +542,10 @@ def configs(tier):
     for lens in ((1,), (2,), (3,), (2, 1), (3, 1)):       # first message queued twice as one object, then the rest
         for kind in TRANSPORTS:
             out.append(("tx", kind, lens, b["tx_stalls"], "twice"))
+    for kind in ("Incomer", "IncomerTls"):       # two connections of one Server / ServerTls
+        for la, lb in b["pairs"]:
+            out.append(("pair", kind, la, lb, "both", b["pair_stalls"]))
+            out.append(("pair", kind, la, lb, "dead-then-new", b["pair_stalls"]))
     for nbytes in range(1, b["rx_total"] + 1):
         for bs in (8096, 2):
             for once in (0, 1):
@@ -389,12 +560,16 @@ def work(cfg):
     if cfg[0] == "tx":
         _, kind, lens, stalls, form = cfg[:5]
         n = tx_config(kind, lens, stalls, p, form=form, bs=(cfg[5] if len(cfg) > 5 else 8096))
+    elif cfg[0] == "pair":
+        n = pair_config(cfg[1], cfg[2], cfg[3], cfg[4], cfg[5], p)
+        if cfg[2] == (1, 2) and cfg[1] == "Incomer":
+            p.sample(dict(config=cfg, executions=n, last_execution_answers=LAST.get("answers")))
     else:
         _, kind, nbytes, bs, once, stalls = cfg
         n = rx_config(kind, nbytes, bs, once, stalls, p)
     p.notes["%s executions" % cfg[0]] += n
     p.notes["configs"] += 1
-    if n > 1 and cfg[1] in ("Client", "IncomerTls") and cfg[2] in ((2, 1), 3) and (len(cfg) < 5 or (cfg[4] != "bytearray" and len(cfg) == 5)):
+    if n > 1 and cfg[0] != "pair" and cfg[1] in ("Client", "IncomerTls") and cfg[2] in ((2, 1), 3) and (len(cfg) < 5 or (cfg[4] != "bytearray" and len(cfg) == 5)):
         p.sample(dict(config=cfg, executions=n, last_execution_answers=LAST.get("answers")))
     return p
 
@@ -405,7 +580,9 @@ def replay(path):
     init()
     p = core.Part()
     c = r["case"]
-    if c[0] == "tx":
+    if c[0] == "pair":
+        pair_config(c[1], tuple(c[2]), tuple(c[3]), c[4], c[5], p, replay=r["choices"])
+    elif c[0] == "tx":
         tx_config(c[1], tuple(c[2]), c[3], p, replay=r["choices"], form=(c[4] if len(c) > 4 else "bytes"),
                   bs=(c[5] if len(c) > 5 else 8096))
     else:
@@ -421,7 +598,8 @@ def run():
     ck = core.Check("C24", META["level"], META["technique"])
     cfgs = configs(core.TIER)
     # big configurations first so the pool stays busy; merge in the simplest-first order
-    order = sorted(range(len(cfgs)), key=lambda i: -(sum(cfgs[i][2]) if cfgs[i][0] == "tx" else cfgs[i][2]))
+    order = sorted(range(len(cfgs)), key=lambda i: -(sum(cfgs[i][2]) if cfgs[i][0] == "tx" else
+                                                      (20 if cfgs[i][0] == "pair" else cfgs[i][2])))
     parts = core.pmap(work, [cfgs[i] for i in order])
     byidx = dict(zip(order, parts))
     ck.merge([byidx[i] for i in range(len(cfgs))])
@@ -442,7 +620,8 @@ def run():
         rule="per transport class: every queue of 1-3 messages of 1-3 bytes with total <= %(tx_total)d x every sequence of "
              "send answers (each count len..0, would-block, TLS want-read) with <= %(tx_stalls)d non-progress answers, "
              "messages as bytes, as bytearrays (total <= %(ba_total)d), with the first bytearray object queued twice, and as bytes "
-             "with bufsize 2 (total <= %(smallbs_total)d); every "
+             "with bufsize 2 (total <= %(smallbs_total)d); two Incomers / IncomerTls of one server, both live under every "
+             "service interleaving and dead-then-new; every "
              "stream of 1..%(rx_total)d bytes x bufsize {8096,2} x {serviceReceives, serviceReceiveOnce} x every sequence "
              "of recv answers (each cut, would-block) with <= %(rx_stalls)d would-blocks; non-trivial = at least one "
              "non-default answer" % b,
